@@ -67,6 +67,9 @@ func (s *memSock) LocalAddr() net.Addr {
 // payload builds the cEMI message that stands for telegram number pid.
 func payload(pid int, ind bool) cemi.Message {
 	l := cemi.LData{
+		// additional info that identifies the telegram too: a telegram delivered with another one's
+		// (or the receive buffer's later) bytes is told apart by pidOf
+		Info:        cemi.Info{byte(pid), byte(pid >> 8), 0xC3},
 		Control1:    cemi.Control1StdFrame,
 		Control2:    cemi.Control2GroupAddr | cemi.Control2Hops(6),
 		Source:      cemi.IndividualAddr(0x1101),
@@ -80,15 +83,25 @@ func payload(pid int, ind bool) cemi.Message {
 }
 
 func pidOf(m cemi.Message) int {
+	var l *cemi.LData
 	switch m := m.(type) {
 	case *cemi.LDataReq:
-		return int(m.Destination)
+		l = &m.LData
 	case *cemi.LDataInd:
-		return int(m.Destination)
+		l = &m.LData
 	case *cemi.LDataCon:
-		return int(m.Destination)
+		l = &m.LData
+	default:
+		return -1
 	}
-	return -1
+	pid := int(l.Destination)
+	if len(l.Info) != 3 || l.Info[0] != byte(pid) || l.Info[1] != byte(pid>>8) || l.Info[2] != 0xC3 {
+		return -2 // the telegram's content is not what was sent
+	}
+	if a, ok := l.Data.(*cemi.AppData); !ok || len(a.Data) != 1 || a.Data[0] != 1 {
+		return -2
+	}
+	return pid
 }
 
 func renderFrame(p knxnet.Service) string {
@@ -119,8 +132,59 @@ func renderFrame(p knxnet.Service) string {
 	return fmt.Sprintf("other(%T)", p)
 }
 
-// parseFrame builds the frame a gateway would send.
+// viaWire turns the frame a gateway would send into the bytes of its datagram and back into what
+// the client's socket hands to the client: the decoders are part of every path into the client.
+// ok=false: the socket's receiver would have dropped the datagram.
+func viaWire(s knxnet.Service) (out knxnet.Service, ok bool) {
+	var frame []byte
+	switch f := s.(type) {
+	case *knxnet.RoutingBusy:
+		w := uint16(f.WaitTime / time.Millisecond)
+		frame = []byte{6, 16, 0x05, 0x32, 0, 12, 6, byte(f.Status), byte(w >> 8), byte(w), byte(f.Control >> 8), byte(f.Control)}
+	case *knxnet.RoutingLost:
+		frame = []byte{6, 16, 0x05, 0x31, 0, 10, 4, byte(f.Status), byte(f.Count >> 8), byte(f.Count)}
+	case knxnet.ServicePackable:
+		frame = knxnet.AllocAndPack(f)
+	default:
+		return s, true
+	}
+	defer func() {
+		if recover() != nil {
+			out, ok = nil, false
+		}
+	}()
+	// like the UDP receiver: decoded from the front of a larger, reused array
+	buf := make([]byte, 1024)
+	for i := range buf {
+		buf[i] = 0xA5
+	}
+	n := copy(buf, frame)
+	if _, err := knxnet.Unpack(buf[:n], &out); err != nil {
+		return nil, false
+	}
+	// the receiver reuses its array for the next datagram
+	for i := range buf {
+		buf[i] = 0x5A
+	}
+	return out, true
+}
+
+// parseFrame builds the frame a gateway would send, as the client's socket delivers it.
 func parseFrame(toks []string) (knxnet.Service, error) {
+	s, err := parseFrameValue(toks)
+	if err != nil {
+		return nil, err
+	}
+	d, ok := viaWire(s)
+	if !ok {
+		return nil, errDropped
+	}
+	return d, nil
+}
+
+var errDropped = fmt.Errorf("datagram dropped by the decoder")
+
+func parseFrameValue(toks []string) (knxnet.Service, error) {
 	n := func(i int) int {
 		var v int
 		fmt.Sscan(toks[i], &v)
